@@ -489,3 +489,272 @@ Proof.
       rewrite Hlen. change (Z.of_nat 12) with 12. rewrite Hidx1. reflexivity.
     + unfold abs, next_ir. cbn [xdbl carry ir ir_old]. rewrite Hidx2. reflexivity.
 Qed.
+
+(* ------------------------------------------------------------------ seeding: the shift register *)
+Definition bit (b : Z) : Prop := b = 0 \/ b = 1.
+Definition bits01 (l : list Z) : Prop := Forall bit l.
+Definition shift (reg : list Z) : list Z := tl reg ++ [(zn reg 0 + zn reg 18) mod 2].
+Definition reginv (r : list Z) : Prop := length r = 31%nat /\ bits01 r.
+
+Lemma lfsr_S : forall n reg, lfsr (S n) reg = zn reg 0 :: lfsr n (shift reg).
+Proof. reflexivity. Qed.
+
+Lemma mod2_bit : forall a, bit (a mod 2).
+Proof. intros. unfold bit. pose proof (Z.mod_pos_bound a 2 ltac:(lia)). lia. Qed.
+
+Lemma shift_inv : forall r, reginv r -> reginv (shift r).
+Proof.
+  intros r [Hl Hb]. unfold reginv, shift. destruct r as [|a r]; [discriminate|]. cbn [tl]. split.
+  - rewrite app_length. cbn [length] in *. lia.
+  - apply Forall_app. split; [inversion Hb; auto|]. constructor; [apply mod2_bit|constructor].
+Qed.
+
+Lemma iter_shift_inv : forall n r, reginv r -> reginv (iter n shift r).
+Proof. intros. apply iter_inv; auto using shift_inv. Qed.
+
+Lemma length_lfsr : forall n reg, length (lfsr n reg) = n.
+Proof. induction n; intros; [reflexivity|]. rewrite lfsr_S. cbn [length]. rewrite IHn. reflexivity. Qed.
+
+Lemma lfsr_add : forall a b reg, lfsr (a + b) reg = lfsr a reg ++ lfsr b (iter a shift reg).
+Proof.
+  induction a as [|a IH]; intros b reg; [reflexivity|].
+  change (S a + b)%nat with (S (a + b)). rewrite !lfsr_S, IH. reflexivity.
+Qed.
+
+Lemma lfsr_bits : forall n r, reginv r -> bits01 (lfsr n r).
+Proof.
+  induction n as [|n IH]; intros r H; [constructor|]. rewrite lfsr_S. constructor.
+  - destruct H as [Hl Hb]. apply (Forall_zn bit); auto. rewrite Hl. cbn. lia.
+  - apply IH. apply shift_inv. auto.
+Qed.
+
+Lemma zn_shift_lt : forall r i, reginv r -> 0 <= i < 30 -> zn (shift r) i = zn r (i + 1).
+Proof.
+  intros r i [Hl _] Hi. destruct r as [|a r]; [discriminate|]. unfold shift, zn. cbn [tl].
+  cbn [length] in Hl. rewrite app_nth1 by lia. replace (Z.to_nat (i + 1)) with (S (Z.to_nat i)) by lia. reflexivity.
+Qed.
+
+Lemma zn_shift_last : forall r, reginv r -> zn (shift r) 30 = (zn r 0 + zn r 18) mod 2.
+Proof.
+  intros r [Hl _]. destruct r as [|a r]; [discriminate|]. unfold shift. cbn [tl]. cbn [length] in Hl.
+  unfold zn at 1. rewrite app_nth2 by (cbn; lia). replace (Z.to_nat 30 - length r)%nat with O by (cbn; lia). reflexivity.
+Qed.
+
+Lemma zn_iter_shift : forall j r i, reginv r -> 0 <= i -> i + Z.of_nat j < 31 ->
+  zn (iter j shift r) i = zn r (i + Z.of_nat j).
+Proof.
+  induction j as [|j IH]; intros r i H Hi Hj; cbn [iter].
+  - f_equal. lia.
+  - rewrite IH by (auto using shift_inv; lia). rewrite zn_shift_lt by (auto; lia). f_equal. lia.
+Qed.
+
+Lemma nth_lfsr : forall j n r, (j < n)%nat -> nth j (lfsr n r) 0 = zn (iter j shift r) 0.
+Proof.
+  induction j as [|j IH]; intros n r H; (destruct n as [|n]; [lia|]); rewrite lfsr_S; cbn [nth iter]; [reflexivity|].
+  apply IH. lia.
+Qed.
+
+(* the recurrence b_{n+31} = b_n xor b_{n+18} seen inside one 48-bit word *)
+Lemma iter_S_l : forall (A : Type) n (f : A -> A) a, iter (S n) f a = iter n f (f a).
+Proof. reflexivity. Qed.
+
+Lemma lfsr_out0 : forall r, nth 0 (lfsr 48 r) 0 = zn r 0.
+Proof. intros. rewrite nth_lfsr by lia. reflexivity. Qed.
+
+Lemma lfsr_out18 : forall r, reginv r -> nth 18 (lfsr 48 r) 0 = zn r 18.
+Proof. intros. rewrite nth_lfsr by lia. rewrite zn_iter_shift; auto; try reflexivity; lia. Qed.
+
+Lemma lfsr_out31 : forall r, reginv r -> nth 31 (lfsr 48 r) 0 = (zn r 0 + zn r 18) mod 2.
+Proof.
+  intros. rewrite nth_lfsr by lia. rewrite (iter_S_l _ 30 shift r).
+  rewrite zn_iter_shift; auto using shift_inv; try lia. apply zn_shift_last; auto.
+Qed.
+
+Lemma lfsr_prefix : forall n reg, (n <= length reg)%nat -> lfsr n reg = firstn n reg.
+Proof.
+  induction n as [|n IH]; intros reg H; [reflexivity|]. rewrite lfsr_S.
+  destruct reg as [|a reg]; [cbn in H; lia|]. cbn [length] in H.
+  rewrite IH by (unfold shift; cbn [tl]; rewrite app_length; cbn [length]; lia).
+  unfold shift. cbn [tl firstn]. rewrite firstn_app. replace (n - length reg)%nat with O by lia.
+  cbn [firstn]. rewrite app_nil_r. reflexivity.
+Qed.
+
+(* ------------------------------------------------------------------ words from bits *)
+Definition wacc (a b : Z) : Z := 2 * a + (1 - b).
+
+Lemma fold_acc : forall bs x, bits01 bs ->
+  x * 2 ^ Z.of_nat (length bs) <= fold_left wacc bs x < (x + 1) * 2 ^ Z.of_nat (length bs).
+Proof.
+  induction bs as [|b bs IH]; intros x H.
+  - cbn [fold_left length]. change (2 ^ Z.of_nat 0) with 1. lia.
+  - inversion H as [|? ? Hb Hbs]; subst. cbn [fold_left length]. specialize (IH (wacc x b) Hbs).
+    rewrite Nat2Z.inj_succ, Z.pow_succ_r by lia.
+    assert (0 < 2 ^ Z.of_nat (length bs)) by (apply Z.pow_pos_nonneg; lia).
+    unfold wacc in *. destruct Hb; subst b; nia.
+Qed.
+
+Lemma wob_range : forall bs, bits01 bs -> 0 <= word_of_bits bs < 2 ^ Z.of_nat (length bs).
+Proof. intros bs H. pose proof (fold_acc bs 0 H). unfold word_of_bits. fold wacc. lia. Qed.
+
+Lemma fold_inj : forall a b x y, length a = length b -> bits01 a -> bits01 b ->
+  fold_left wacc a x = fold_left wacc b y -> x = y /\ a = b.
+Proof.
+  induction a as [|p a IH]; intros b x y Hl Ha Hb E; destruct b as [|q b]; try discriminate.
+  - cbn in E. auto.
+  - assert (x = y).
+    { pose proof (fold_acc (p :: a) x Ha). pose proof (fold_acc (q :: b) y Hb). rewrite E, Hl in *.
+      assert (0 < 2 ^ Z.of_nat (length (q :: b))) by (apply Z.pow_pos_nonneg; lia). nia. }
+    subst y. inversion Ha; subst. inversion Hb; subst. cbn [fold_left] in E. cbn [length] in Hl.
+    destruct (IH b (wacc x p) (wacc x q)) as [E1 E2]; auto. subst b. unfold wacc in E1.
+    split; auto. f_equal. lia.
+Qed.
+
+Lemma fold_low : forall bs x, bits01 bs -> fold_left wacc bs x = x * 2 ^ Z.of_nat (length bs) -> Forall (fun b => b = 1) bs.
+Proof.
+  induction bs as [|b bs IH]; intros x H E; [constructor|].
+  inversion H as [|? ? Hb Hbs]; subst. cbn [fold_left length] in E.
+  rewrite Nat2Z.inj_succ, Z.pow_succ_r in E by lia.
+  pose proof (fold_acc bs (wacc x b) Hbs) as B. rewrite E in B.
+  assert (0 < 2 ^ Z.of_nat (length bs)) by (apply Z.pow_pos_nonneg; lia).
+  assert (b = 1) by (unfold wacc in B; destruct Hb; subst b; nia). subst b.
+  constructor; auto. apply (IH (wacc x 1)); auto. rewrite E. unfold wacc. ring.
+Qed.
+
+Lemma wob_zero : forall bs, bits01 bs -> word_of_bits bs = 0 -> Forall (fun b => b = 1) bs.
+Proof. intros bs H E. apply (fold_low bs 0); auto. Qed.
+
+(* no 48-bit word drawn from the register is zero *)
+Lemma word_nonzero : forall r, reginv r -> word_of_bits (lfsr 48 r) <> 0.
+Proof.
+  intros r H E. apply wob_zero in E; [|apply lfsr_bits; auto].
+  rewrite Forall_forall in E.
+  assert (A0 : nth 0 (lfsr 48 r) 0 = 1) by (apply E, nth_In; rewrite length_lfsr; lia).
+  assert (A18 : nth 18 (lfsr 48 r) 0 = 1) by (apply E, nth_In; rewrite length_lfsr; lia).
+  assert (A31 : nth 31 (lfsr 48 r) 0 = 1) by (apply E, nth_In; rewrite length_lfsr; lia).
+  rewrite lfsr_out0 in A0. rewrite lfsr_out18 in A18 by auto. rewrite lfsr_out31 in A31 by auto.
+  rewrite A0, A18 in A31. vm_compute in A31. discriminate.
+Qed.
+
+Lemma word_range : forall r, reginv r -> word_ok (word_of_bits (lfsr 48 r)).
+Proof.
+  intros r H. pose proof (wob_range (lfsr 48 r) (lfsr_bits 48 r H)) as B. rewrite length_lfsr in B. exact B.
+Qed.
+
+(* ------------------------------------------------------------------ set_seed's loops = the shift register spec *)
+Definition bufinv (xbit : list Z) (ibit : Z) : Prop := reginv xbit /\ 0 <= ibit < 31.
+
+Lemma rot_inv : forall xbit ibit, bufinv xbit ibit -> reginv (rot xbit ibit).
+Proof. intros xbit ibit [[Hl Hb] Hi]. split; [rewrite length_rot; auto|apply Forall_rot; auto]. Qed.
+
+Lemma bitstep_rot : forall xbit ibit x, bufinv xbit ibit ->
+  exists xbit' ibit', bitstep (xbit, ibit, (ibit + 18) mod 31, x) = (xbit', ibit', (ibit' + 18) mod 31, wacc x (zn (rot xbit ibit) 0))
+    /\ bufinv xbit' ibit' /\ rot xbit' ibit' = shift (rot xbit ibit).
+Proof.
+  intros xbit ibit x [[Hl Hb] Hi].
+  exists (upd xbit ibit ((zn xbit ibit + zn xbit ((ibit + 18) mod 31)) mod 2)), ((ibit + 1) mod 31).
+  assert (Hz0 : zn (rot xbit ibit) 0 = zn xbit ibit).
+  { rewrite zn_rot by (rewrite Hl; cbn; lia). rewrite Hl, Z.add_0_r. apply f_equal, Z.mod_small. cbn. lia. }
+  assert (Hz18 : zn (rot xbit ibit) 18 = zn xbit ((ibit + 18) mod 31)).
+  { rewrite zn_rot by (rewrite Hl; cbn; lia). rewrite Hl. reflexivity. }
+  split; [|split].
+  - unfold bitstep. f_equal; [f_equal|].
+    + rewrite !Zplus_mod_idemp_l. f_equal. lia.
+    + rewrite Hz0. unfold wacc.
+      assert (bit (zn xbit ibit)) as [E|E] by (apply (Forall_zn bit); auto; rewrite Hl; cbn; lia); rewrite E;
+        change ((0 + 1) mod 2) with 1; change ((1 + 1) mod 2) with 0; lia.
+  - split; [split|apply Z.mod_pos_bound; lia].
+    + rewrite length_upd. auto.
+    + apply Forall_upd_nat; auto. apply mod2_bit.
+  - unfold shift. rewrite Hz0, Hz18.
+    replace 31 with (Z.of_nat (length xbit)) at 2 by (rewrite Hl; reflexivity).
+    apply rot_upd. rewrite Hl. cbn. lia.
+Qed.
+
+Lemma bits_iter : forall m xbit ibit x, bufinv xbit ibit ->
+  exists xbit' ibit', iter m bitstep (xbit, ibit, (ibit + 18) mod 31, x) =
+                      (xbit', ibit', (ibit' + 18) mod 31, fold_left wacc (lfsr m (rot xbit ibit)) x)
+    /\ bufinv xbit' ibit' /\ rot xbit' ibit' = iter m shift (rot xbit ibit).
+Proof.
+  induction m as [|m IH]; intros xbit ibit x H.
+  - exists xbit, ibit. cbn [iter lfsr fold_left]. repeat split; auto; apply H.
+  - destruct (bitstep_rot xbit ibit x H) as (xb1 & ib1 & E1 & H1 & R1).
+    destruct (IH xb1 ib1 (wacc x (zn (rot xbit ibit) 0)) H1) as (xb2 & ib2 & E2 & H2 & R2).
+    exists xb2, ib2. rewrite iter_S_l, E1, E2, lfsr_S. cbn [fold_left]. rewrite R2, R1, iter_S_l. repeat split; auto; apply H2.
+Qed.
+
+Fixpoint regs (n : nat) (reg : list Z) : list (list Z) :=
+  match n with O => [] | S n' => reg :: regs n' (iter 48 shift reg) end.
+
+Lemma firstn_app_exact : forall n (a b : list Z), length a = n -> firstn n (a ++ b) = a.
+Proof. intros n a b <-. apply firstn_app_len. Qed.
+Lemma skipn_app_exact : forall n (a b : list Z), length a = n -> skipn n (a ++ b) = b.
+Proof. intros n a b <-. apply skipn_app_len. Qed.
+
+Lemma chunks_lfsr : forall n reg, chunks n (lfsr (n * 48) reg) = map (lfsr 48) (regs n reg).
+Proof.
+  induction n as [|n IH]; intros reg; [reflexivity|].
+  rewrite Nat.mul_succ_l, Nat.add_comm, lfsr_add. cbn [chunks regs map].
+  rewrite firstn_app_exact, skipn_app_exact by apply length_lfsr. rewrite IH. reflexivity.
+Qed.
+
+Lemma regs_inv : forall n reg, reginv reg -> Forall reginv (regs n reg).
+Proof.
+  induction n as [|n IH]; intros reg H; cbn [regs]; constructor; auto. apply IH, iter_shift_inv. auto.
+Qed.
+
+Lemma wob_fold : forall bs, word_of_bits bs = fold_left wacc bs 0.
+Proof. reflexivity. Qed.
+
+Lemma seed_words_gen : forall n xbit ibit, bufinv xbit ibit ->
+  seed_words n xbit ibit ((ibit + 18) mod 31) = map word_of_bits (map (lfsr 48) (regs n (rot xbit ibit))).
+Proof.
+  induction n as [|n IH]; intros xbit ibit H; [reflexivity|].
+  cbn [seed_words regs map].
+  destruct (bits_iter 48 xbit ibit 0 H) as (xb & ib & E & H' & R). rewrite E. cbv beta iota. rewrite IH, R by auto. rewrite wob_fold. reflexivity.
+Qed.
+
+Lemma seed_bits_length : forall n i, length (seed_bits n i) = n.
+Proof. induction n; intros; cbn [seed_bits length]; auto. Qed.
+
+Lemma seed_bits_bits : forall n i, bits01 (seed_bits n i).
+Proof. induction n; intros; cbn [seed_bits]; constructor; [apply mod2_bit|apply IHn]. Qed.
+
+Lemma seed_bits_inv : forall i, reginv (seed_bits 31 i).
+Proof. intros. split; [apply seed_bits_length|apply seed_bits_bits]. Qed.
+
+Lemma rot_0 : forall l, rot l 0 = l.
+Proof. intros. unfold rot. cbn [Z.to_nat skipn firstn]. apply app_nil_r. Qed.
+
+Lemma set_seed_words : forall seed,
+  xdbl (set_seed seed) = map word_of_bits (map (lfsr 48) (regs 12 (seed_bits 31 (seed_index seed)))).
+Proof.
+  intros. unfold set_seed. cbn [xdbl]. change 18 with ((0 + 18) mod 31).
+  rewrite seed_words_gen by (split; [apply seed_bits_inv|lia]). rewrite rot_0. reflexivity.
+Qed.
+
+Lemma seed_words_spec_eq : forall i, seed_words_spec i = map word_of_bits (map (lfsr 48) (regs 12 (seed_bits 31 i))).
+Proof. intros. unfold seed_words_spec. change 576%nat with (12 * 48)%nat. rewrite chunks_lfsr. reflexivity. Qed.
+
+Lemma seed_index_mod : forall seed, seed_index seed = (if seed =? 0 then 1 else seed) mod 2147483648.
+Proof. intros. unfold seed_index. change 2147483647 with (Z.ones 31). rewrite Z.land_ones by lia. reflexivity. Qed.
+
+Lemma set_seed_spec : forall seed, abs (set_seed seed) = lux_init seed.
+Proof.
+  intros. unfold abs, lux_init. rewrite seed_words_spec_eq, <- seed_index_mod, <- set_seed_words.
+  unfold set_seed. cbn [xdbl carry ir ir_old]. rewrite rot_0. reflexivity.
+Qed.
+
+Lemma map_map_Forall : forall (Q : Z -> Prop) rs, (forall r, reginv r -> Q (word_of_bits (lfsr 48 r))) ->
+  Forall reginv rs -> Forall Q (map word_of_bits (map (lfsr 48) rs)).
+Proof. intros Q rs HQ H. induction H; cbn [map]; constructor; auto. Qed.
+
+Lemma set_seed_wf : forall seed, wf (set_seed seed).
+Proof.
+  intros. unfold wf. rewrite set_seed_words. unfold set_seed. cbn [carry ir jr ir_old pr].
+  split; [rewrite !map_length; reflexivity|].
+  split; [apply map_map_Forall; [apply word_range|apply regs_inv, seed_bits_inv]|].
+  repeat split; try lia; auto.
+Qed.
+
+Lemma set_seed_nonzero : forall seed, Forall (fun w => w <> 0) (xdbl (set_seed seed)).
+Proof. intros. rewrite set_seed_words. apply map_map_Forall; [apply word_nonzero|apply regs_inv, seed_bits_inv]. Qed.
